@@ -14,3 +14,35 @@ Fixpoint mismatches_from (k : nat) (cs : list (list gstep * nat)) : list (nat * 
       if Nat.eqb m v then mismatches_from (S k) cs' else (k, m) :: mismatches_from (S k) cs'
   end.
 Definition mismatches := mismatches_from 0.
+
+(* ---- compact sweeps: the graph of an edge mask is built in Gallina (the same enumeration as the driver's
+   fromMask: for i, for j (i<>j unless loops): bit k set <=> step i depends on step j), so that a whole
+   block of 2^16 graphs costs one number list in the cases file. ---- *)
+From Coq Require Import NArith Ascii.
+Definition sname (i : nat) : string := String "s" (String (ascii_of_nat (48 + i)) EmptyString).
+
+Fixpoint deps_row (n i j : nat) (loops : bool) (m : N) (fuel : nat) : list string * N :=
+  match fuel with
+  | O => ([], m)
+  | S f =>
+      if Nat.eqb j n then ([], m)
+      else if Nat.eqb i j && negb loops then deps_row n i (S j) loops m f
+      else let '(ds, m') := deps_row n i (S j) loops (N.div2 m) f in
+           (if N.odd m then sname j :: ds else ds, m')
+  end.
+Fixpoint mask_rows (n i : nat) (loops : bool) (m : N) (fuel : nat) : list gstep :=
+  match fuel with
+  | O => []
+  | S f => if Nat.eqb i n then []
+           else let '(ds, m') := deps_row n i 0 loops m (S n) in
+                mk (sname i) ds :: mask_rows n (S i) loops m' f
+  end.
+Definition mask_graph (n : nat) (loops : bool) (m : N) : list gstep := mask_rows n 0 loops m (S n).
+
+Fixpoint sweep_from (n : nat) (loops : bool) (m : N) (obs : list nat) : list (N * nat) :=
+  match obs with
+  | [] => []
+  | v :: obs' =>
+      let mv := verdict_code (gaccept (mask_graph n loops m)) in
+      if Nat.eqb mv v then sweep_from n loops (N.succ m) obs' else (m, mv) :: sweep_from n loops (N.succ m) obs'
+  end.
